@@ -137,6 +137,14 @@ Proof.
   apply (arb_ctap2_family_valid gen_env all_feats ctap2_variants generated_arb_genable); [discriminate|vm_compute; reflexivity].
 Qed.
 
+Theorem c19_ctap1_request_generator : forall u, bytes_ok u = true ->
+  match arb_ctap1_request ctap1_variants u with
+  | AOk (name, v) u' => (exists ts, In (name, ts) ctap1_variants) /\ ctap1_payload_ok name v /\ bytes_ok u' = true
+  | ANotEnough => True
+  | APanic _ => False
+  end.
+Proof. intros u Hb. apply arb_ctap1_request_valid; [discriminate|vm_compute; reflexivity|exact Hb]. Qed.
+
 (* non-vacuity: a (minimal) MakeCredential request from 64 zero bytes, and a relying-party entity with id "abc", name "hi" and
    the icon marker set *)
 Example c19_ex_request :
@@ -202,3 +210,4 @@ Eval vm_compute in "ASSUMPTIONS c19_plain_structures_unchanged_u2f_requests". Pr
 Eval vm_compute in "ASSUMPTIONS c19_ctap2_request_generator". Print Assumptions c19_ctap2_request_generator.
 Eval vm_compute in "ASSUMPTIONS c19_request_enums_unchanged". Print Assumptions c19_request_enums_unchanged.
 Eval vm_compute in "ASSUMPTIONS c19_feature_table_unchanged". Print Assumptions c19_feature_table_unchanged.
+Eval vm_compute in "ASSUMPTIONS c19_ctap1_request_generator". Print Assumptions c19_ctap1_request_generator.
